@@ -2,7 +2,7 @@
 class / header / member grammar (C05)."""
 import re
 from vf.unit import Unit, AnchorLost, strip_attrs_and_docs
-from .common import HEADER, FOOTER, contract, extract_struct, extract_struct_priv
+from .common import label_helper_lemmas, HEADER, FOOTER, contract, extract_struct, extract_struct_priv
 
 # spec text of a byte-predicate closure body: exec helper calls become their spec functions, byte literals stay
 SPEC_MAP = [(r"is_newline\((\w+)\)", r"spec_is_newline(*\1)"), (r"shim_byte_is_numeric\(\*(\w+)\)", r"spec_byte_is_numeric(*\1)"),
@@ -145,6 +145,639 @@ pub open spec fn split_ok(b: Seq<u8>, k: int, ret: Result<(&str, &[u8]), ParseEr
         Ok((s, rest)) => valid_utf8(b.subrange(0, k)) && str_bytes(s) == b.subrange(0, k) && rest@ == b.subrange(k, b.len() as int),
         Err(e) => !valid_utf8(b.subrange(0, k)) && e.line@ == b.subrange(0, k),
     }
+}
+"""
+
+
+ITEM_SPEC = r"""
+// ======== C06: the complete reference parser of one item, as a function of the bytes ========
+// the content of a record (strings as bytes: the record itself borrows from the input, its content is what a caller can observe)
+pub struct ALm { pub start: usize, pub end: usize, pub ostart: Option<usize>, pub oend: Option<usize> }
+pub enum ARec {
+    Header { key: Seq<u8>, value: Option<Seq<u8>> },
+    Class { original: Seq<u8>, obfuscated: Seq<u8> },
+    Field { ty: Seq<u8>, original: Seq<u8>, obfuscated: Seq<u8> },
+    Method { ty: Seq<u8>, original: Seq<u8>, obfuscated: Seq<u8>, arguments: Seq<u8>, original_class: Option<Seq<u8>>, lm: Option<ALm> },
+}
+pub enum AItem { Good(ARec), Bad(Seq<u8>) }
+pub open spec fn abs_lm(l: Option<LineMapping>) -> Option<ALm> {
+    match l { Some(l) => Some(ALm { start: l.startline, end: l.endline, ostart: l.original_startline, oend: l.original_endline }), None => None }
+}
+pub open spec fn abs_rec(r: ProguardRecord) -> ARec {
+    match r {
+        ProguardRecord::Header { key, value } => ARec::Header { key: str_bytes(key), value: opt_bytes(value) },
+        ProguardRecord::Class { original, obfuscated } => ARec::Class { original: str_bytes(original), obfuscated: str_bytes(obfuscated) },
+        ProguardRecord::Field { ty, original, obfuscated } => ARec::Field { ty: str_bytes(ty), original: str_bytes(original), obfuscated: str_bytes(obfuscated) },
+        ProguardRecord::Method { ty, original, obfuscated, arguments, original_class, line_mapping } =>
+            ARec::Method { ty: str_bytes(ty), original: str_bytes(original), obfuscated: str_bytes(obfuscated), arguments: str_bytes(arguments),
+                           original_class: opt_bytes(original_class), lm: abs_lm(line_mapping) },
+    }
+}
+pub open spec fn abs_item(r: Result<ProguardRecord, ParseError>) -> AItem {
+    match r { Ok(rec) => AItem::Good(abs_rec(rec)), Err(e) => AItem::Bad(e.line@) }
+}
+// the record a member line denotes (Field without an argument list, Method with one; the name is split at its last dot; a line mapping exists
+// iff both obfuscated numbers are present and positive)
+pub open spec fn member_arec(ms: MemberSpec) -> ARec {
+    match ms.args {
+        None => ARec::Field { ty: ms.ty, original: ms.orig, obfuscated: ms.obf },
+        Some(args) => {
+            let (orig, oc) = match spec_last_dot(ms.orig) { Some(d) => (ms.orig.subrange(d + 1, ms.orig.len() as int), Some(ms.orig.subrange(0, d))), None => (ms.orig, None) };
+            let lm = if ms.start is Some && ms.end is Some && ms.start->0 > 0 && ms.end->0 > 0 { Some(ALm { start: ms.start->0, end: ms.end->0, ostart: ms.ostart, oend: ms.oend }) } else { None };
+            ARec::Method { ty: ms.ty, original: orig, obfuscated: ms.obf, arguments: args, original_class: oc, lm: lm }
+        },
+    }
+}
+// one line (b: the input after its leading line terminators): `#` -> header, four spaces -> member, otherwise class
+pub open spec fn line_spec(b: Seq<u8>) -> Option<(ARec, Seq<u8>)> {
+    if has_prefix(b, lit_hash()) {
+        match header_spec(b) { Some(h) => Some((ARec::Header { key: h.key, value: h.value }, h.rest)), None => None }
+    } else if has_prefix(b, lit_4sp()) {
+        match member_spec(b) { Some(ms) => Some((member_arec(ms), skip_nl(ms.rest))), None => None }
+    } else {
+        match class_spec(b) { Some(cs) => Some((ARec::Class { original: cs.0, obfuscated: cs.1 }, skip_nl(cs.2))), None => None }
+    }
+}
+// one item: the record of the first line, or an error that carries the first line with its one terminator byte
+pub open spec fn parse_spec(bytes: Seq<u8>) -> (AItem, Seq<u8>) {
+    let b = skip_nl(bytes);
+    match line_spec(b) {
+        Some((rec, rest)) => (AItem::Good(rec), rest),
+        None => (AItem::Bad(b.subrange(0, line_end(b))), b.subrange(line_end(b), b.len() as int)),
+    }
+}
+pub proof fn lemma_member_record_is_the_reference_record(rec: ProguardRecord, ms: MemberSpec)
+    requires member_record_ok(rec, ms),
+    ensures abs_rec(rec) == member_arec(ms),
+{
+    match rec {
+        ProguardRecord::Method { ty, original, obfuscated, arguments, original_class, line_mapping } => {
+            assert(abs_lm(line_mapping) == (if ms.start is Some && ms.end is Some && ms.start->0 > 0 && ms.end->0 > 0 { Some(ALm { start: ms.start->0, end: ms.end->0, ostart: ms.ostart, oend: ms.oend }) } else { None }));
+        },
+        _ => {},
+    }
+}
+"""
+
+LOCALITY = r"""
+// ======== C06: what a line denotes does not depend on what follows its end ========
+// l: the rest of the current line (no terminator inside); t: what follows it -- nothing, or something that starts with a terminator
+pub open spec fn cont(t: Seq<u8>) -> bool { t.len() == 0 || spec_is_newline(t[0]) }
+pub open spec fn kind_has_nl(kind: int) -> bool { 0 <= kind <= 6 }
+
+pub proof fn lemma_no_nl_skip(r: Seq<u8>)
+    requires no_nl(r),
+    ensures skip_nl(r) == r,
+{ if r.len() > 0 { assert(!spec_is_newline(r[0])); } }
+
+pub proof fn lemma_loc_find(l: Seq<u8>, t: Seq<u8>, kind: int)
+    requires no_nl(l), cont(t), kind_has_nl(kind),
+    ensures find_first(l + t, kind) == find_first(l, kind), 0 <= find_first(l, kind) <= l.len(),
+{
+    let k = find_first(l, kind);
+    lemma_find_first_props(l, kind);
+    let x = l + t;
+    assert forall|j: int| 0 <= j < k implies !in_set(kind, #[trigger] x[j]) by { assert(x[j] == l[j]); }
+    if k < l.len() { assert(x[k] == l[k]); } else if t.len() > 0 { assert(x[k] == t[0]); assert(in_set(kind, t[0])); }
+    lemma_find_first(x, kind, k);
+}
+pub proof fn lemma_loc_strip(l: Seq<u8>, t: Seq<u8>, p: Seq<u8>)
+    requires no_nl(l), cont(t), no_nl(p),
+    ensures strip(l + t, p) == (match strip(l, p) { Some(r) => Some(r + t), None => None }),
+        strip(l, p) is Some ==> no_nl(strip(l, p)->0) && (strip(l, p)->0).len() == l.len() - p.len(),
+{
+    reveal(strip);
+    let x = l + t;
+    if p.len() <= l.len() {
+        assert(x.subrange(0, p.len() as int) =~= l.subrange(0, p.len() as int));
+        if has_prefix(l, p) {
+            assert(x.subrange(p.len() as int, x.len() as int) =~= l.subrange(p.len() as int, l.len() as int) + t);
+            lemma_sub_no_nl(l, p.len() as int, l.len() as int);
+        }
+    } else {
+        if has_prefix(x, p) {
+            // position l.len() of the prefix would be t[0], a terminator, but p has none
+            assert(x.subrange(0, p.len() as int)[l.len() as int] == t[0]);
+            assert(!spec_is_newline(p[l.len() as int]));
+            assert(false);
+        }
+    }
+}
+pub proof fn lemma_loc_num(l: Seq<u8>, t: Seq<u8>)
+    requires no_nl(l), cont(t),
+    ensures sp_num(l + t) == (match sp_num(l) { Some((v, r)) => Some((v, r + t)), None => None }),
+        sp_num(l) is Some ==> no_nl((sp_num(l)->0).1) && (sp_num(l)->0).1.len() <= l.len(),
+{
+    reveal(sp_num);
+    lemma_loc_find(l, t, 6);
+    let d = find_first(l, 6); let x = l + t;
+    assert(x.subrange(0, d) =~= l.subrange(0, d));
+    assert(x.subrange(d, x.len() as int) =~= l.subrange(d, l.len() as int) + t);
+    lemma_sub_no_nl(l, d, l.len() as int);
+}
+pub proof fn lemma_loc_until(l: Seq<u8>, t: Seq<u8>, kind: int)
+    requires no_nl(l), cont(t), kind_has_nl(kind),
+    ensures sp_until(l + t, kind) == (match sp_until(l, kind) { Some((w, r)) => Some((w, r + t)), None => None }),
+        sp_until(l, kind) is Some ==> no_nl((sp_until(l, kind)->0).1) && (sp_until(l, kind)->0).1.len() <= l.len(),
+{
+    reveal(sp_until);
+    lemma_loc_find(l, t, kind);
+    let d = find_first(l, kind); let x = l + t;
+    assert(x.subrange(0, d) =~= l.subrange(0, d));
+    assert(x.subrange(d, x.len() as int) =~= l.subrange(d, l.len() as int) + t);
+    lemma_sub_no_nl(l, d, l.len() as int);
+}
+// a word must not end at a line end: when the line ends right after the word, the word is accepted at the end of the input but not before a terminator --
+// in that one case the two readings differ here, and agree again one step later (every word of the grammar is followed by a mandatory literal)
+pub proof fn lemma_loc_word(l: Seq<u8>, t: Seq<u8>, kind: int)
+    requires no_nl(l), cont(t), kind_has_nl(kind),
+    ensures
+        match sp_word(l, kind) {
+            None => sp_word(l + t, kind) is None,
+            Some((w, r)) => no_nl(r) && r.len() <= l.len() && (if r.len() == 0 && t.len() > 0 { sp_word(l + t, kind) is None } else { sp_word(l + t, kind) == Some((w, r + t)) }),
+        },
+{
+    reveal(sp_word);
+    lemma_loc_find(l, t, kind);
+    let d = find_first(l, kind); let x = l + t;
+    assert(x.subrange(0, d) =~= l.subrange(0, d));
+    assert(x.subrange(d, x.len() as int) =~= l.subrange(d, l.len() as int) + t);
+    lemma_sub_no_nl(l, d, l.len() as int);
+    if d < l.len() { assert(x[d] == l[d]); assert(!spec_is_newline(l[d])); } else if t.len() > 0 { assert(x[d] == t[0]); }
+}
+pub proof fn lemma_strip_empty(p: Seq<u8>)
+    requires p.len() > 0,
+    ensures strip(Seq::<u8>::empty(), p) is None,
+{ reveal(strip); }
+
+// ---- class line ----
+pub proof fn lemma_loc_class(l: Seq<u8>, t: Seq<u8>)
+    requires no_nl(l), cont(t),
+    ensures class_spec(l + t) == (match class_spec(l) { Some(cs) => Some((cs.0, cs.1, cs.2 + t)), None => None }),
+        class_spec(l) is Some ==> no_nl((class_spec(l)->0).2) && (class_spec(l)->0).2.len() < l.len(),
+{
+    assert(no_nl(lit_arrow()) && no_nl(lit_colon()));
+    lemma_loc_word(l, t, 3);
+    match sp_word(l, 3) {
+        None => {},
+        Some((o, b1)) => {
+            if b1.len() == 0 && t.len() > 0 { assert(b1 =~= Seq::<u8>::empty()); lemma_strip_empty(lit_arrow()); } else {
+                lemma_loc_strip(b1, t, lit_arrow());
+                match strip(b1, lit_arrow()) {
+                    None => {},
+                    Some(b2) => {
+                        lemma_loc_word(b2, t, 2);
+                        match sp_word(b2, 2) {
+                            None => {},
+                            Some((ob, b3)) => {
+                                if b3.len() == 0 && t.len() > 0 { assert(b3 =~= Seq::<u8>::empty()); lemma_strip_empty(lit_colon()); } else {
+                                    lemma_loc_strip(b3, t, lit_colon());
+                                }
+                            },
+                        }
+                    },
+                }
+            }
+        },
+    }
+}
+
+// ---- header line ----
+pub proof fn lemma_loc_header(l: Seq<u8>, t: Seq<u8>)
+    requires no_nl(l), cont(t),
+    ensures header_spec(l + t) == (match header_spec(l) { Some(h) => Some(HeaderSpec { key: h.key, value: h.value, rest: skip_nl(h.rest + t) }), None => None }),
+        header_spec(l) is Some ==> no_nl((header_spec(l)->0).rest) && (header_spec(l)->0).rest.len() < l.len(),
+{
+    lemma_sfp_no_nl();
+    assert(no_nl(lit_hash()) && no_nl(lit_colon()) && no_nl(lit_qb()) && no_nl(lit_sfp()));
+    lemma_loc_strip(l, t, lit_hash());
+    match strip(l, lit_hash()) {
+        None => {},
+        Some(body) => {
+            lemma_loc_strip(body, t, lit_sfp());
+            match strip(body, lit_sfp()) {
+                Some(v0) => {
+                    lemma_loc_word(v0, t, 1);
+                    match sp_word(v0, 1) {
+                        None => {},
+                        Some((v, v1)) => {
+                            if v1.len() == 0 && t.len() > 0 { assert(v1 =~= Seq::<u8>::empty()); lemma_strip_empty(lit_qb()); } else {
+                                lemma_loc_strip(v1, t, lit_qb());
+                                match strip(v1, lit_qb()) { None => {}, Some(v2) => { lemma_no_nl_skip(v2); } }
+                            }
+                        },
+                    }
+                },
+                None => {
+                    lemma_loc_until(body, t, 2);
+                    match sp_until(body, 2) {
+                        None => {},
+                        Some((k, k1)) => {
+                            lemma_loc_strip(k1, t, lit_colon());
+                            match strip(k1, lit_colon()) {
+                                Some(a) => {
+                                    lemma_loc_until(a, t, 0);
+                                    match sp_until(a, 0) { None => {}, Some((v, k2)) => { lemma_no_nl_skip(k2); } }
+                                },
+                                None => { lemma_no_nl_skip(k1); },
+                            }
+                        },
+                    }
+                },
+            }
+        },
+    }
+}
+
+// ---- member line: one lemma per grammar position, from the end of the line backwards ----
+pub open spec fn ms_rel(x_lt: Option<MemberSpec>, x_l: Option<MemberSpec>, t: Seq<u8>, n: nat) -> bool {
+    match x_l { None => x_lt is None, Some(m) => no_nl(m.rest) && m.rest.len() <= n && x_lt == Some(MemberSpec { rest: m.rest + t, ..m }) }
+}
+pub proof fn lemma_loc_ms9(a: MemberSpec, l: Seq<u8>, t: Seq<u8>)
+    requires no_nl(l), cont(t),
+    ensures ms_rel(ms9(a, strip(l + t, lit_arrow())), ms9(a, strip(l, lit_arrow())), t, l.len()),
+{
+    reveal(ms9); reveal(ms10);
+    assert(no_nl(lit_arrow()));
+    lemma_loc_strip(l, t, lit_arrow());
+    match strip(l, lit_arrow()) { None => {}, Some(b10) => { lemma_loc_until(b10, t, 0); } }
+}
+pub proof fn lemma_loc_optnum(gate: bool, l: Seq<u8>, t: Seq<u8>)
+    requires no_nl(l), cont(t),
+    ensures st_optnum(gate, l + t) == (match st_optnum(gate, l) { Some((v, r)) => Some((v, r + t)), None => None }),
+        st_optnum(gate, l) is Some ==> no_nl((st_optnum(gate, l)->0).1) && (st_optnum(gate, l)->0).1.len() <= l.len(),
+{
+    assert(no_nl(lit_colon()));
+    lemma_loc_strip(l, t, lit_colon());
+    match strip(l, lit_colon()) { None => {}, Some(c1) => { lemma_loc_num(c1, t); } }
+}
+pub proof fn lemma_loc_ms8(a: MemberSpec, gate: bool, l: Seq<u8>, t: Seq<u8>)
+    requires no_nl(l), cont(t),
+    ensures ms_rel(ms8(a, st_optnum(gate, l + t)), ms8(a, st_optnum(gate, l)), t, l.len()),
+{
+    reveal(ms8);
+    lemma_loc_optnum(gate, l, t);
+    match st_optnum(gate, l) { None => {}, Some((oend, b9)) => { lemma_loc_ms9(MemberSpec { oend: oend, ..a }, b9, t); } }
+}
+pub proof fn lemma_loc_ms7(a: MemberSpec, gate: bool, l: Seq<u8>, t: Seq<u8>)
+    requires no_nl(l), cont(t),
+    ensures ms_rel(ms7(a, st_optnum(gate, l + t)), ms7(a, st_optnum(gate, l)), t, l.len()),
+{
+    reveal(ms7);
+    lemma_loc_optnum(gate, l, t);
+    match st_optnum(gate, l) { None => {}, Some((ostart, b8)) => { lemma_loc_ms8(MemberSpec { ostart: ostart, ..a }, ostart is Some, b8, t); } }
+}
+pub proof fn lemma_loc_ms6(a: MemberSpec, l: Seq<u8>, t: Seq<u8>)
+    requires no_nl(l), cont(t),
+    ensures ms_rel(ms6(a, st_args(l + t)), ms6(a, st_args(l)), t, l.len()),
+{
+    reveal(ms6);
+    assert(no_nl(lit_lp()) && no_nl(lit_rp()));
+    lemma_loc_strip(l, t, lit_lp());
+    match strip(l, lit_lp()) {
+        None => { lemma_loc_ms7(MemberSpec { args: None, ..a }, false, l, t); },
+        Some(c1) => {
+            lemma_loc_word(c1, t, 5);
+            match sp_word(c1, 5) {
+                None => {},
+                Some((ar, c2)) => {
+                    if c2.len() == 0 && t.len() > 0 { assert(c2 =~= Seq::<u8>::empty()); lemma_strip_empty(lit_rp()); } else {
+                        lemma_loc_strip(c2, t, lit_rp());
+                        match strip(c2, lit_rp()) { None => {}, Some(c3) => { lemma_loc_ms7(MemberSpec { args: Some(ar), ..a }, true, c3, t); } }
+                    }
+                },
+            }
+        },
+    }
+}
+// a name that runs to the end of the line cannot be followed by ` -> `: the line is rejected, at the end of the input as well as before a terminator
+pub proof fn lemma_ms5_empty_rest(a: MemberSpec, orig: Seq<u8>)
+    ensures ms5(a, Some((orig, Seq::<u8>::empty()))) is None,
+{
+    reveal(ms5); reveal(ms6); reveal(ms7); reveal(ms8); reveal(ms9);
+    let e = Seq::<u8>::empty();
+    lemma_strip_empty(lit_lp()); lemma_strip_empty(lit_arrow());
+    assert(st_args(e) == Some((None::<Seq<u8>>, e)));
+    assert(st_optnum(false, e) == Some((None::<usize>, e)));
+}
+pub proof fn lemma_loc_ms5(a: MemberSpec, l: Seq<u8>, t: Seq<u8>)
+    requires no_nl(l), cont(t),
+    ensures ms_rel(ms5(a, sp_word(l + t, 4)), ms5(a, sp_word(l, 4)), t, l.len()),
+{
+    reveal(ms5);
+    lemma_loc_word(l, t, 4);
+    match sp_word(l, 4) {
+        None => {},
+        Some((orig, b6)) => {
+            if b6.len() == 0 && t.len() > 0 { assert(b6 =~= Seq::<u8>::empty()); lemma_ms5_empty_rest(a, orig); } else { lemma_loc_ms6(MemberSpec { orig: orig, ..a }, b6, t); }
+        },
+    }
+}
+pub proof fn lemma_loc_ms3(a: MemberSpec, l: Seq<u8>, t: Seq<u8>)
+    requires no_nl(l), cont(t),
+    ensures ms_rel(ms3(a, sp_word(l + t, 3)), ms3(a, sp_word(l, 3)), t, l.len()),
+{
+    reveal(ms3); reveal(ms4);
+    assert(no_nl(lit_sp()));
+    lemma_loc_word(l, t, 3);
+    match sp_word(l, 3) {
+        None => {},
+        Some((ty, b4)) => {
+            if b4.len() == 0 && t.len() > 0 { assert(b4 =~= Seq::<u8>::empty()); lemma_strip_empty(lit_sp()); } else {
+                lemma_loc_strip(b4, t, lit_sp());
+                match strip(b4, lit_sp()) { None => {}, Some(b5) => { lemma_loc_ms5(MemberSpec { ty: ty, ..a }, b5, t); } }
+            }
+        },
+    }
+}
+pub proof fn lemma_loc_member(l: Seq<u8>, t: Seq<u8>)
+    requires no_nl(l), cont(t),
+    ensures ms_rel(member_spec(l + t), member_spec(l), t, if l.len() >= 4 { (l.len() - 4) as nat } else { 0 }),
+{
+    reveal(ms1); reveal(ms2);
+    assert(no_nl(lit_4sp()) && no_nl(lit_colon()));
+    lemma_loc_strip(l, t, lit_4sp());
+    match strip(l, lit_4sp()) {
+        None => {},
+        Some(b1) => {
+            lemma_loc_num(b1, t);
+            let s = st_start(b1);
+            let a = MemberSpec { start: s.0, ..ms_init() };
+            match s.0 {
+                None => { lemma_loc_ms3(MemberSpec { end: None, ..a }, b1, t); },
+                Some(_) => {
+                    lemma_loc_strip(s.1, t, lit_colon());
+                    match strip(s.1, lit_colon()) { None => {}, Some(c1) => {
+                        lemma_loc_num(c1, t);
+                        match sp_num(c1) { None => {}, Some((e, c2)) => {
+                            lemma_loc_strip(c2, t, lit_colon());
+                            match strip(c2, lit_colon()) { None => {}, Some(c3) => { lemma_loc_ms3(MemberSpec { end: Some(e), ..a }, c3, t); } }
+                        } }
+                    } }
+                },
+            }
+        },
+    }
+}
+
+// ---- one line, whichever kind it is ----
+pub proof fn lemma_loc_line(l: Seq<u8>, t: Seq<u8>)
+    requires no_nl(l), cont(t), l.len() > 0,
+    ensures
+        line_spec(l + t) == (match line_spec(l) { Some((rec, r)) => Some((rec, skip_nl(r + t))), None => None }),
+        line_spec(l) is Some ==> no_nl((line_spec(l)->0).1) && (line_spec(l)->0).1.len() < l.len(),
+{
+    assert(no_nl(lit_hash()) && no_nl(lit_4sp()));
+    lemma_loc_strip(l, t, lit_hash());
+    lemma_loc_strip(l, t, lit_4sp());
+    assert(has_prefix(l + t, lit_hash()) == has_prefix(l, lit_hash()) && has_prefix(l + t, lit_4sp()) == has_prefix(l, lit_4sp())) by { reveal(strip); }
+    if has_prefix(l, lit_hash()) {
+        lemma_loc_header(l, t);
+    } else if has_prefix(l, lit_4sp()) {
+        lemma_loc_member(l, t);
+        match member_spec(l) { Some(ms) => { lemma_no_nl_skip(ms.rest); }, None => {} }
+    } else {
+        lemma_loc_class(l, t);
+        match class_spec(l) { Some(cs) => { lemma_no_nl_skip(cs.2); }, None => {} }
+    }
+}
+
+// ---- the item stream of a byte string, by the reference parser (the iterator's `remaining()` of unit u7, with r_of / rest_of spelled out) ----
+pub open spec fn items(b: Seq<u8>) -> Seq<AItem>
+    decreases b.len()
+{
+    let b1 = skip_nl(b);
+    if b1.len() == 0 || !(b1.len() <= b.len()) || !(parse_spec(b1).1.len() < b1.len()) { Seq::empty() } else { seq![parse_spec(b1).0] + items(parse_spec(b1).1) }
+}
+pub proof fn lemma_skip_nl_facts(b: Seq<u8>)
+    ensures skip_nl(b).len() <= b.len(), skip_nl(skip_nl(b)) == skip_nl(b), skip_nl(b).len() > 0 ==> !spec_is_newline(skip_nl(b)[0]),
+    decreases b.len()
+{ if b.len() > 0 && spec_is_newline(b[0]) { lemma_skip_nl_facts(b.subrange(1, b.len() as int)); } }
+pub proof fn lemma_skip_nl_append(a: Seq<u8>, y: Seq<u8>)
+    ensures skip_nl(a + y) == (if skip_nl(a).len() > 0 { skip_nl(a) + y } else { skip_nl(y) }),
+    decreases a.len()
+{
+    if a.len() == 0 { assert(a + y =~= y); }
+    else if spec_is_newline(a[0]) {
+        let a1 = a.subrange(1, a.len() as int);
+        assert((a + y).subrange(1, (a + y).len() as int) =~= a1 + y);
+        assert((a + y)[0] == a[0]);
+        lemma_skip_nl_append(a1, y);
+    } else { assert((a + y)[0] == a[0]); }
+}
+// a non-empty input that does not start with a terminator is its first line followed by nothing or by a terminator
+pub open spec fn first_line(b: Seq<u8>) -> Seq<u8> { b.subrange(0, find_first(b, 0)) }
+pub open spec fn after_first_line(b: Seq<u8>) -> Seq<u8> { b.subrange(find_first(b, 0), b.len() as int) }
+pub proof fn lemma_first_line(b: Seq<u8>)
+    requires b.len() > 0, !spec_is_newline(b[0]),
+    ensures b == first_line(b) + after_first_line(b), no_nl(first_line(b)), first_line(b).len() > 0, cont(after_first_line(b)),
+{
+    lemma_find_first_props(b, 0);
+    let p = find_first(b, 0);
+    assert(p >= 1) by { if p == 0 { assert(in_set(0, b[0])); } }
+    assert(b =~= b.subrange(0, p) + b.subrange(p, b.len() as int));
+    assert forall|j: int| 0 <= j < p implies !spec_is_newline(#[trigger] b.subrange(0, p)[j]) by { assert(!in_set(0, b[j])); }
+    if p < b.len() { assert(in_set(0, b[p])); assert(b.subrange(p, b.len() as int)[0] == b[p]); }
+}
+// every item consumes at least one byte
+pub proof fn lemma_reference_parser_makes_progress(b1: Seq<u8>)
+    requires b1.len() > 0, !spec_is_newline(b1[0]),
+    ensures /*@L:reference_parser_consumes_at_least_one_byte:C06*/ parse_spec(b1).1.len() < b1.len(),
+{
+    lemma_first_line(b1);
+    let l = first_line(b1); let t = after_first_line(b1);
+    lemma_loc_line(l, t);
+    assert(skip_nl(b1) == b1);
+    match line_spec(l) {
+        Some((rec, r)) => { lemma_skip_nl_facts(r + t); },
+        None => { lemma_line_end_bounds(b1); },
+    }
+}
+pub proof fn lemma_items_skip(b: Seq<u8>)
+    ensures items(skip_nl(b)) == items(b),
+{ lemma_skip_nl_facts(b); lemma_skip_nl_facts(skip_nl(b)); }
+
+// two item streams agree up to the payload of a LAST error item: an unterminated malformed last line carries no terminator byte, the same line followed by
+// more input carries its one terminator byte (`ParseError::line` includes it -- the documented, tested behaviour)
+pub open spec fn sim(x: AItem, y: AItem) -> bool {
+    x == y || match (x, y) {
+        (AItem::Bad(p), AItem::Bad(q)) => no_nl(p) && q.len() == p.len() + 1 && q.subrange(0, p.len() as int) == p && spec_is_newline(q[p.len() as int]),
+        _ => false,
+    }
+}
+// ix is ia followed by ib, where only the last item of ia may differ, and only as `sim` allows
+pub open spec fn glued(ia: Seq<AItem>, ib: Seq<AItem>, ix: Seq<AItem>) -> bool
+    decreases ia.len()
+{
+    if ia.len() == 0 { ix == ib }
+    else if ia.len() == 1 { ix.len() >= 1 && sim(ia[0], ix[0]) && ix.subrange(1, ix.len() as int) == ib }
+    else { ix.len() >= 1 && ia[0] == ix[0] && glued(ia.subrange(1, ia.len() as int), ib, ix.subrange(1, ix.len() as int)) }
+}
+pub proof fn lemma_glued_cons(g: AItem, ia: Seq<AItem>, ib: Seq<AItem>, ix: Seq<AItem>)
+    requires glued(ia, ib, ix),
+    ensures glued(seq![g] + ia, ib, seq![g] + ix),
+{
+    let a2 = seq![g] + ia; let x2 = seq![g] + ix;
+    assert(a2.subrange(1, a2.len() as int) =~= ia);
+    assert(x2.subrange(1, x2.len() as int) =~= ix);
+    if ia.len() == 0 { assert(a2.len() == 1); assert(sim(a2[0], x2[0])); }
+}
+
+// THE RECORDS OF  A + terminator + B  ARE THE RECORDS OF  A  FOLLOWED BY THE RECORDS OF  B
+pub proof fn lemma_items_of_concatenation(a: Seq<u8>, nl: u8, b: Seq<u8>)
+    requires spec_is_newline(nl),
+    ensures /*@L:records_of_a_newline_b_are_the_records_of_a_followed_by_the_records_of_b:C06*/ glued(items(a), items(b), items(a + seq![nl] + b)),
+    decreases a.len()
+{
+    let x = a + seq![nl] + b;
+    let nb = seq![nl] + b;
+    assert(x =~= a + nb);
+    let a1 = skip_nl(a);
+    lemma_skip_nl_facts(a);
+    lemma_skip_nl_append(a, nb);
+    if a1.len() == 0 {
+        // nothing but terminators: they vanish in front of B
+        assert(nb.subrange(1, nb.len() as int) =~= b);
+        assert(skip_nl(nb) == skip_nl(b));
+        assert(skip_nl(x) == skip_nl(b));
+        lemma_skip_nl_facts(x); lemma_skip_nl_facts(b);
+        assert(items(x) == items(b));
+        assert(items(a) =~= Seq::<AItem>::empty());
+    } else {
+        let x1 = skip_nl(x);
+        assert(x1 == a1 + nb);
+        lemma_first_line(a1);
+        let l = first_line(a1); let ta = after_first_line(a1);
+        let tx = ta + nb;
+        assert(x1 =~= l + tx);
+        assert(cont(tx)) by { if ta.len() > 0 { assert(tx[0] == ta[0]); } else { assert(tx[0] == nl); } }
+        lemma_loc_line(l, ta);
+        lemma_loc_line(l, tx);
+        lemma_skip_nl_facts(x);
+        assert(skip_nl(a1) == a1 && skip_nl(x1) == x1);
+        assert(!spec_is_newline(x1[0])) by { assert(x1[0] == a1[0]); }
+        lemma_reference_parser_makes_progress(a1);
+        lemma_reference_parser_makes_progress(x1);
+        assert(items(a) == seq![parse_spec(a1).0] + items(parse_spec(a1).1));
+        assert(items(x) == seq![parse_spec(x1).0] + items(parse_spec(x1).1));
+        let n = l.len() as int;
+        match line_spec(l) {
+            Some((rec, r)) => {
+                // the same record; what remains is  r + ta  on one side and  r + ta + nl + B  on the other
+                let a2 = r + ta;
+                assert(r + tx =~= a2 + seq![nl] + b);
+                assert(a2.len() < a.len());
+                lemma_items_of_concatenation(a2, nl, b);
+                lemma_items_skip(a2);
+                lemma_items_skip(a2 + seq![nl] + b);
+                lemma_glued_cons(AItem::Good(rec), items(a2), items(b), items(a2 + seq![nl] + b));
+            },
+            None => {
+                lemma_line_end(a1, l.len() as int);
+                lemma_line_end(x1, l.len() as int);
+                if ta.len() > 0 {
+                    // the malformed line has its terminator inside A: same payload, and the rest of A goes on
+                    let a2 = ta.subrange(1, ta.len() as int);
+                    assert(line_end(a1) == n + 1 && line_end(x1) == n + 1);
+                    assert(a1.subrange(0, n + 1) =~= x1.subrange(0, n + 1));
+                    assert(a1.subrange(n + 1, a1.len() as int) =~= a2);
+                    assert(x1.subrange(n + 1, x1.len() as int) =~= a2 + seq![nl] + b);
+                    lemma_items_of_concatenation(a2, nl, b);
+                    lemma_glued_cons(parse_spec(a1).0, items(a2), items(b), items(a2 + seq![nl] + b));
+                } else {
+                    // the malformed line is A's unterminated last line: its error item gains the terminator byte, nothing else changes
+                    assert(a1 =~= l);
+                    assert(line_end(a1) == l.len() && line_end(x1) == n + 1);
+                    assert(a1.subrange(0, l.len() as int) =~= l);
+                    assert(a1.subrange(l.len() as int, a1.len() as int) =~= Seq::<u8>::empty());
+                    assert(x1.subrange(n + 1, x1.len() as int) =~= b);
+                    let q = x1.subrange(0, n + 1);
+                    assert(q.subrange(0, l.len() as int) =~= l);
+                    assert(q[l.len() as int] == nl);
+                    assert(items(Seq::<u8>::empty()) =~= Seq::<AItem>::empty());
+                    assert(items(a) =~= seq![AItem::Bad(l)]);
+                    assert(sim(AItem::Bad(l), AItem::Bad(q)));
+                    assert(items(x).subrange(1, items(x).len() as int) =~= items(b));
+                }
+            },
+        }
+    }
+}
+
+// ---- consequences for the records themselves (what the mapper and the cache writer consume: the Ok items) ----
+pub open spec fn goods(s: Seq<AItem>) -> Seq<ARec>
+    decreases s.len()
+{
+    if s.len() == 0 { Seq::empty() } else {
+        let rest = goods(s.subrange(1, s.len() as int));
+        match s[0] { AItem::Good(r) => seq![r] + rest, AItem::Bad(_) => rest }
+    }
+}
+pub proof fn lemma_goods_glued(ia: Seq<AItem>, ib: Seq<AItem>, ix: Seq<AItem>)
+    requires glued(ia, ib, ix),
+    ensures goods(ix) == goods(ia) + goods(ib),
+    decreases ia.len()
+{
+    if ia.len() == 0 {
+        assert(goods(ia) =~= Seq::<ARec>::empty());
+        assert(goods(ia) + goods(ib) =~= goods(ib));
+    } else if ia.len() == 1 {
+        assert(goods(ia.subrange(1, 1)) =~= Seq::<ARec>::empty());
+        match ia[0] { AItem::Good(r) => { assert(ix[0] == ia[0]); assert(goods(ia) =~= seq![r]); }, AItem::Bad(_) => { assert(ix[0] is Bad); assert(goods(ia) =~= Seq::<ARec>::empty()); assert(goods(ia) + goods(ib) =~= goods(ib)); } }
+    } else {
+        lemma_goods_glued(ia.subrange(1, ia.len() as int), ib, ix.subrange(1, ix.len() as int));
+        match ia[0] {
+            AItem::Good(r) => { assert(goods(ix) =~= seq![r] + (goods(ia.subrange(1, ia.len() as int)) + goods(ib))); },
+            AItem::Bad(_) => {},
+        }
+    }
+}
+pub proof fn lemma_good_records_of_concatenation(a: Seq<u8>, nl: u8, b: Seq<u8>)
+    requires spec_is_newline(nl),
+    ensures /*@L:ok_records_of_a_newline_b_are_the_ok_records_of_a_followed_by_those_of_b:C06,C01*/ goods(items(a + seq![nl] + b)) == goods(items(a)) + goods(items(b)),
+{
+    lemma_items_of_concatenation(a, nl, b);
+    lemma_goods_glued(items(a), items(b), items(a + seq![nl] + b));
+}
+// C01, "the answer does not depend on line-ending style, blank or unparseable lines": a stretch J of input between two line ends that yields no record
+// (blank lines, malformed lines, any mixture) leaves the records of the file unchanged, and so does the choice of terminator (CR, LF or CRLF)
+pub proof fn lemma_lines_without_records_do_not_matter(a: Seq<u8>, n1: u8, j: Seq<u8>, n2: u8, b: Seq<u8>)
+    requires spec_is_newline(n1), spec_is_newline(n2), goods(items(j)) == Seq::<ARec>::empty(),
+    ensures /*@L:input_that_yields_no_record_between_two_line_ends_changes_no_record:C01,C06*/
+        goods(items(a + seq![n1] + j + seq![n2] + b)) == goods(items(a)) + goods(items(b)),
+{
+    let aj = a + seq![n1] + j;
+    lemma_good_records_of_concatenation(aj, n2, b);
+    lemma_good_records_of_concatenation(a, n1, j);
+    assert(goods(items(a)) + Seq::<ARec>::empty() =~= goods(items(a)));
+}
+pub proof fn lemma_line_ending_style_does_not_matter(a: Seq<u8>, b: Seq<u8>)
+    ensures /*@L:cr_lf_and_crlf_give_the_same_records:C01,C06*/
+        goods(items(a + seq![13u8] + b)) == goods(items(a + seq![10u8] + b)),
+        goods(items(a + seq![13u8, 10u8] + b)) == goods(items(a + seq![10u8] + b)),
+{
+    lemma_good_records_of_concatenation(a, 13u8, b);
+    lemma_good_records_of_concatenation(a, 10u8, b);
+    let lb = seq![10u8] + b;
+    lemma_good_records_of_concatenation(a, 13u8, lb);
+    assert(a + seq![13u8] + lb =~= a + seq![13u8, 10u8] + b);
+    // a leading terminator of B vanishes
+    assert(lb.subrange(1, lb.len() as int) =~= b);
+    assert(skip_nl(lb) == skip_nl(b));
+    lemma_items_skip(lb); lemma_items_skip(b);
+}
+
+// the definitions are not vacuous on the smallest input: a lone terminator yields no item
+pub proof fn lemma_items_instance()
+    ensures items(seq![10u8]) == Seq::<AItem>::empty(), items(Seq::<u8>::empty()) == Seq::<AItem>::empty(),
+{
+    let b = seq![10u8];
+    assert(b.len() == 1 && b[0] == 10u8);
+    assert(b.subrange(1, b.len() as int) =~= Seq::<u8>::empty());
+    assert(skip_nl(Seq::<u8>::empty()) =~= Seq::<u8>::empty());
+    assert(skip_nl(b) == skip_nl(b.subrange(1, b.len() as int)));
+    assert(items(b) =~= Seq::<AItem>::empty());
+    assert(items(Seq::<u8>::empty()) =~= Seq::<AItem>::empty());
 }
 """
 
@@ -912,6 +1545,7 @@ pub proof fn lemma_numeric_no_nl(b: Seq<u8>, k: int)
     u.emit(f)
 
     # ---------------- parse_proguard_record ----------------
+    u.raw(ITEM_SPEC, "reference parser of one item (dispatch over the three line grammars)")
     f = mp.fn("parse_proguard_record")
     f.ret("ret")
     f.props_all = ["C06", "C05", "C19"]; f.props_safety = P13
@@ -921,7 +1555,8 @@ pub proof fn lemma_numeric_no_nl(b: Seq<u8>, k: int)
         /*@L:ok_record_taken_within_first_line:C06*/ ret.0 is Ok ==> taken_within_first_line(skip_nl(bytes@), ret.1@),
         /*@L:error_consumes_exactly_one_line:C06,C05*/ ret.0 is Err ==> ({ let b = skip_nl(bytes@);
             ret.0->Err_0.line@ == b.subrange(0, line_end(b)) && ret.1@ == b.subrange(line_end(b), b.len() as int) }),
-        /*@L:rest_is_a_suffix:C06*/ exists|k: int| 0 <= k <= bytes@.len() && ret.1@ == #[trigger] bytes@.subrange(k, bytes@.len() as int),""")
+        /*@L:rest_is_a_suffix:C06*/ exists|k: int| 0 <= k <= bytes@.len() && ret.1@ == #[trigger] bytes@.subrange(k, bytes@.len() as int),
+        /*@L:item_and_rest_are_exactly_those_of_the_reference_parser:C06,C05*/ abs_item(ret.0) == parse_spec(bytes@).0 && ret.1@ == parse_spec(bytes@).1,""")
     f.body_start("let ghost b_in = bytes@;\n    proof { lemma_skip_nl_suffix(b_in); }\n")
     # snapshot of the input after the leading terminators were skipped (if the function does that first, as the pinned code does)
     if re.search(r"let bytes = consume_leading_newlines\(bytes\)", f.orig):
@@ -929,6 +1564,8 @@ pub proof fn lemma_numeric_no_nl(b: Seq<u8>, k: int)
     else:
         f.body_start("let ghost b1 = bytes@;\n")
     f.insert_before("match result {", """proof {
+        axiom_byte_literals_short();
+        if result is Ok && !has_prefix(b1, lit_hash()) && has_prefix(b1, lit_4sp()) { lemma_member_record_is_the_reference_record(result->Ok_0.0, member_spec(b1)->0); }
         let k0 = choose|k: int| 0 <= k <= b_in.len() && #[trigger] b_in.subrange(k, b_in.len() as int) == skip_nl(b_in);
         if result is Ok {
             let r = result->Ok_0.1@;
@@ -957,5 +1594,6 @@ pub proof fn lemma_numeric_no_nl(b: Seq<u8>, k: int)
     u.emit(f)
     u.raw("}\n", "glue")
 
+    u.raw(label_helper_lemmas(LOCALITY, "C06"), "line locality and the concatenation theorem (pure lemmas)")
     u.raw(FOOTER, "footer")
     return u
